@@ -126,7 +126,7 @@ def run_refactoring(m, props=None):
         if os.path.isdir(base):
             env["GM2_CACHE_SEED"] = base
             env["GM2_CHANGED"] = ":".join(changed)
-        for pid in (props or claimed()):
+        for pid in (props or m.get("props") or claimed()):
             r = subprocess.run([sys.executable, os.path.join(VERIF, "check"), pid, "--tier", "quick"],
                                capture_output=True, text=True, env=env)
             if r.returncode != 0:
